@@ -13,7 +13,7 @@ RULE = ('Hypothesis builds session byte streams from a grammar (1..3 transaction
         'under: one burst, per line, per byte, cuts after every CR/LF, one cut next to every line-ending dot, and 2 random cut lists; output bytes, callback trace with '
         'arguments and queued envelopes must be identical, and grammar-built streams must match the reference automaton. '
         'non-trivial = stream has a DATA phase followed by >=1 pipelined command; distinct = distinct (config, stream bytes)')
-ASSUMPTIONS = ['every segmentation ends with EOF after the last byte', 'message sizes stay 20 bytes away from the SIZE limit',
+ASSUMPTIONS = ['every segmentation ends with EOF after the last byte', 'grammar-built messages stay 20 bytes away from the SIZE limit (the reference automaton does not model the exact size accounting); the size-boundary family compares segmentations only',
                'recv() returns at most 4096 bytes']
 
 L = ALPHA_BY_LABEL
@@ -86,7 +86,10 @@ def grammar_session(draw):
     size = draw(st.sampled_from([None, None, 1000]))
     cfg = Config(auth=draw(st.booleans()), size=size, starttls=draw(st.booleans()),
                  layer=draw(st.sampled_from(['bare', 'edge'])))
-    items = [draw(st.sampled_from([L['EHLO'], L['EHLO'], L['HELO']]))]
+    items = []
+    if draw(st.integers(0, 5)) == 0:
+        items.append(L['STARTTLS'])        # before EHLO: refused, whatever is pipelined behind it must still be processed
+    items.append(draw(st.sampled_from([L['EHLO'], L['EHLO'], L['HELO']])))
     for _ in range(draw(st.integers(1, 3))):
         items.append(draw(st.sampled_from([L['MAIL'], L['MAIL-null'], L['mail-lower'], L['MAIL/450']])))
         for _ in range(draw(st.integers(1, 3))):
@@ -97,7 +100,8 @@ def grammar_session(draw):
                 b'', b'QUIT\r\n', b'.\r\n', b'end.\r\nMAIL FROM:<evil@x.org>\r\nQUIT\r\n', b'..\r\nRSET\r\nQUIT\r\n', b'x\r\n']))
         items.append(Item('DATA', b'DATA', content=body, label='DATA[%d]' % len(body)))
         for _ in range(draw(st.integers(0, 2))):
-            items.append(draw(st.sampled_from([L['NOOP'], L['RSET'], L['RCPT'], L['DATA'], L['UNKNOWN'], L['GARBAGE'], L['EHLO']])))
+            items.append(draw(st.sampled_from([L['NOOP'], L['RSET'], L['RCPT'], L['DATA'], L['UNKNOWN'], L['GARBAGE'], L['EHLO'],
+                                               L['STARTTLS-arg'], L['STARTTLS-arg']])))
     if draw(st.booleans()):
         items.append(L['QUIT'])
     cuts = draw(st.lists(st.lists(st.integers(0, 5000), max_size=10), min_size=2, max_size=2))
@@ -117,13 +121,30 @@ def mutated_session(draw):
         if how == 'subst':
             data[i] = draw(st.sampled_from([10, 13, 46, 32, 0, 255, 65]))
         elif how == 'insert':
-            data[i:i] = draw(st.sampled_from([b'\r\n', b'\n', b'\r', b'.', b'.\r\n', b'\r\n.\r\n', b'DATA\r\n', b' ', b'\x00']))
+            data[i:i] = draw(st.sampled_from([b'\r\n', b'\n', b'\r', b'.', b'.\r\n', b'\r\n.\r\n', b'DATA\r\n', b' ', b'\x00',
+                                              b'STARTTLS x\r\n', b'. \r\n', b'.\t\r\n']))
         elif how == 'delete':
             del data[i:i + draw(st.integers(1, 4))]
         else:
             j = min(len(data), i + draw(st.integers(1, 20)))
             data[i:i] = data[i:j]
     return bytes(data), cfg, cuts
+
+
+@st.composite
+def boundary_session(draw):
+    """Raw streams whose message size is within a few bytes of the SIZE limit, ended by a plain or a white-space padded
+    end-of-data line, with commands pipelined behind; only the segmentations are compared."""
+    size = 200
+    cfg = Config(auth=False, size=size, starttls=False, layer=draw(st.sampled_from(['bare', 'edge'])))
+    n = size + draw(st.integers(-6, 6))
+    line = draw(st.sampled_from([b'0123456789abcdef\r\n', b'abc.\r\n', b'..x\r\n', b'y\r\n']))
+    body = (line * (n // len(line) + 1))[:max(0, n - 2)] + b'\r\n'
+    eod = draw(st.sampled_from([b'.\r\n', b'.\r\n', b'. \r\n', b'.\t\r\n', b'.\r\r\n', b'.\n']))
+    tail = draw(st.sampled_from([b'NOOP\r\nQUIT\r\n', b'RSET\r\nMAIL FROM:<a@b.c>\r\n', b'', b'QUIT\r\n']))
+    data = b'EHLO c\r\nMAIL FROM:<s@x.org>\r\nRCPT TO:<r1@y.org>\r\nDATA\r\n' + body + eod + tail
+    cuts = draw(st.lists(st.lists(st.integers(0, 5000), max_size=6), min_size=2, max_size=2))
+    return data, cfg, cuts
 
 
 def has_pipelined_after_data(items, exps):
@@ -156,6 +177,13 @@ def run_shard(ctx):
                    labels=['mutated', 'layer=' + cfg.layer],
                    case=lambda: {'kind': 'bytes', 'cfg': cfg.json(), 'data': data.hex(), 'cuts': cuts}, failures=f)
     hyp.drive(ctx, mutated_session(), one_mutated, ctx.n(2500, 60000), salt=1)
+
+    def one_boundary(v):
+        data, cfg, cuts = v
+        f = judge(data, [], cfg, cuts)
+        ctx.record((cfg.key(), data), True, labels=['size-boundary', 'layer=' + cfg.layer],
+                   case=lambda: {'kind': 'bytes', 'cfg': cfg.json(), 'data': data.hex(), 'cuts': cuts}, failures=f)
+    hyp.drive(ctx, boundary_session(), one_boundary, ctx.n(600, 12000), salt=2)
 
 
 def replay(case):
